@@ -190,6 +190,24 @@ pub fn scan_fn(f: &str, a: &[&str]) -> Option<String> {
             }
             Some("ok none".to_string())
         }
+        // C02 / C03: search for an honest signature with an EMPTY hint row i >= 1 after a non-empty prefix (its counter equals
+        // the previous one, which is > 0): about 1 % of ML-DSA-65 / Dilithium3 signatures, rarer or absent for the other sets
+        ("findsigempty", 3) => {
+            let s = set_fns(a[0])?; let sk = unhex(a[1])?; let n: usize = a[2].parse().ok()?;
+            let hoff = s.sig - s.omega - s.k;
+            for i in 0..n {
+                let msg = (i as u32).to_le_bytes().to_vec();
+                let mut sig = vec![0u8; s.sig];
+                (s.sign)(&mut sig, &msg, &sk, false);
+                for row in 1..s.k {
+                    let prev = sig[hoff + s.omega + row - 1]; let cur = sig[hoff + s.omega + row];
+                    if cur == prev && prev > 0 {
+                        return Some(format!("ok {} {} {}", hex(&msg), hex(&sig), row));
+                    }
+                }
+            }
+            Some("ok none".to_string())
+        }
         ("judgemany", 4) => crate::judge::judgemany(a),
         ("signmany", 3) => {
             let s = set_fns(a[0])?; let seed = unhex(a[1])?; let count: usize = a[2].parse().ok()?;
